@@ -11,10 +11,10 @@ EXTENDS Naturals, Sequences, FiniteSets, TLC, Json
 Classes == {"valid", "blank", "garbage", "conflict", "nonobject", "truncated", "longutf8",
             "nul", "bom", "overlong", "unknown_type", "empty_object", "wrong_field_type",
             "bad_timestamp", "duplicate_create", "event_before_create", "tie_timestamps",
-            "deep_nesting", "huge_valid_body"}
+            "deep_nesting", "huge_valid_body", "dep_cycle"}
 Positions == {"middle", "last"}
 Commands == {"list", "list_epics", "list_ready", "show", "prune_dry", "where", "quickstart",
-             "claim", "new_task", "set", "compact", "prune"}
+             "claim", "new_task", "set", "compact", "prune", "sequence", "sequence_rm"}
 ReadOnly == {"list", "list_epics", "list_ready", "show", "prune_dry", "where", "quickstart"}
 
 \* lines that are not valid JSON (for an Event): the error must name file and line
@@ -22,7 +22,7 @@ NotJSON == {"garbage", "conflict", "nonobject", "truncated", "longutf8", "nul", 
 \* lines that are valid JSON but make replay fail: an error message is enough
 ReplayFails == {"wrong_field_type", "bad_timestamp", "duplicate_create"}
 Harmless == {"valid", "blank", "unknown_type", "empty_object", "event_before_create", "tie_timestamps",
-             "deep_nesting", "huge_valid_body"}
+             "deep_nesting", "huge_valid_body", "dep_cycle"}
 
 Cases == {[class |-> c, pos |-> p, nl |-> n, cmd |-> m] :
             c \in Classes, p \in Positions, n \in BOOLEAN, m \in Commands}
